@@ -16,7 +16,7 @@ RULE = ("cases: random polyhedra (1-4 rows, 1-4 columns) and integer points as a
         "the judged points of the call some satisfy all rows and some do not (or, for ineq_separate_points, some row separates and "
         "some does not); distinct by digest of (function, matrix, points)"
         ' Also: duplicate rows, magnitudes beyond 2**53 judged with exact Python-int arithmetic (inputs whose row values leave int64 are out of scope).')
-BUDGET = {"quick": (12, 1000, 90), "thorough": (16, 8000, 1200)}
+BUDGET = {"quick": (12, 3000, 90), "thorough": (16, 8000, 1200)}
 FUNCS = ["ineqs_satisfied", "separable", "ineq_separate_points"]
 PYTEST = True     # thorough tier also runs the repository's own tests under these monitors
 MANDATORY = ["judged:%s:%dD" % (f, d) for f in FUNCS for d in (1, 2, 3)]
